@@ -157,7 +157,7 @@ Print Assumptions C16_no_verify_all_succeed.
 
 (* ... and is REFUTED with verification, for both store classes: writer 0 (verify=True) places the
    object, writer 1's reflink probe truncates it, writer 0's own post-add verification reads the
-   empty file, removes it and reports the object failed - while writer 1 re-creates it, so the
+   empty file, reports the object failed and removes it - while writer 1 re-creates it, so the
    final store is complete.  Witness by vm_compute; the same grant sequence reproduces on the
    implementation (harness signature C16:root:verify-sees-probe-truncated-object). *)
 Theorem C16_verify_all_succeed_refuted : forall loc,
@@ -168,3 +168,14 @@ Theorem C16_verify_all_succeed_refuted : forall loc,
     vdone q = true /\ view w ex_o = Some (ex_b, loc).
 Proof. exact verify_all_succeed_refuted. Qed.
 Print Assumptions C16_verify_all_succeed_refuted.
+
+(* worse variant (the check is read-then-remove, two system calls): when the remove is delayed until the
+   prober has re-created the object, it deletes the complete object; the writer that re-created it ran
+   its whole legal program and reported no failure, yet the object is absent from the final store
+   (harness signature C16:root:verify-drop-removes-recreated-object) *)
+Theorem C16_verify_store_incomplete_refuted : forall loc,
+  exists w fl q,
+    vrun loc [ex_its; ex_its] vex_sched_lost (w0, []) [vex_a; map Base (ex_prog_of loc)] = Some ((w, fl), q) /\
+    vdone q = true /\ fl = [(0%nat, ex_o)] /\ view w ex_o = None.
+Proof. exact verify_store_incomplete_refuted. Qed.
+Print Assumptions C16_verify_store_incomplete_refuted.
